@@ -72,7 +72,9 @@ class Variant:
         self.rhs_gen = rhs_gen
         self.mask = mask
         self.manufactured = (kind == 'nonlinear') if manufactured is None else manufactured
-        self.always = always        # run in the quick tier irrespective of subsampling
+        self.always = always or (kind == 'nonlinear' and key.split('.')[0] in (
+            'Van_der_Pol_implicit', 'Lorenz', 'odeScalar', 'odeSystem', 'Battery', 'LogisticEquation', 'nonlinear_ODE_1', 'Auzinger_implicit'))
+        # ^ run in the quick tier irrespective of subsampling (all ODE-sized Newton variants are cheap)
         self.u0_pert = u0_pert
         self.consistent = consistent  # callable(prob, rhs, u, t) -> bool: same branch of a switched right-hand side
         self.zero_ok = zero_ok        # factor = 0 admissible (not for DAE-type systems with algebraic rows)
@@ -352,9 +354,9 @@ add('OuterSolarSystem.outer_solar_system', 'full', dict(sun_only=False), 'nosolv
 add('OuterSolarSystem.outer_solar_system', 'sun_only', dict(sun_only=True), 'nosolve')
 add('FullSolarSystem.full_solar_system', 'full', dict(sun_only=False), 'nosolve', always=True)
 add('FullSolarSystem.full_solar_system', 'sun_only', dict(sun_only=True), 'nosolve')
-add('PenningTrap_3D.penningtrap', 'n1', dict(omega_B=25.0, omega_E=4.9, u0=np.array([[10, 0, 0], [100, 0, 100], [1], [1]], dtype=object), nparts=1, sig=0.1),
+add('PenningTrap_3D.penningtrap', 'n1', dict(omega_B=25.0, omega_E=4.9, u0=np.array([[10, 2, 3], [100, 5, 100], [1], [1]], dtype=object), nparts=1, sig=0.1),
     'nosolve', always=True)
-add('PenningTrap_3D.penningtrap', 'n4', dict(omega_B=25.0, omega_E=4.9, u0=np.array([[10, 0, 0], [100, 0, 100], [1], [1]], dtype=object), nparts=4, sig=0.1),
+add('PenningTrap_3D.penningtrap', 'n4', dict(omega_B=25.0, omega_E=4.9, u0=np.array([[10, 2, 3], [100, 5, 100], [1], [1]], dtype=object), nparts=4, sig=0.1),
     'nosolve')
 
 # ---- spectral family ---------------------------------------------------------------------------------------------------
